@@ -17,8 +17,9 @@ Representation (see NOTES/C10.md for the argument that it is faithful):
 * A pointer is an id; freed objects disappear from `pages` / `nets`, so a dangling id is
   observable (`findPage = none`).
 * `unsigned int` counters are `Nat` (they overflow after 2^32 events); the `uint8_t` members
-  `n_subpages`, `max_subpages` of `struct ttx_page_stat` are kept modulo 256 and the `uint16_t`
-  members `subno_min`, `subno_max` modulo 65536, exactly as the C code truncates them.
+  (since 5e41e82) `uint16_t` members `n_subpages`, `max_subpages`, `subno_min`, `subno_max` of
+  `struct ttx_page_stat` are kept modulo 65536, exactly as the C code truncates them; the widths and the
+  shape of the statements the translator recognises are pinned by `source_shape` below.
 -/
 namespace Zvbi.Cache
 open Zvbi.Gen.Cache
@@ -80,6 +81,14 @@ structure State where
 /-- `vbi_cache_new` -/
 def init : State := {}
 
+/-- What translate/gen_cache.py read from the current source.  The model below is written for exactly
+    this shape; if /repo changes (counter widths, the sub-page range rule of `cache_network_add_page`, the
+    look-up / clamp / second-wrap statements of `_vbi_cache_foreach_page`) this stops to build. -/
+theorem source_shape :
+    nSubMod = 65536 ∧ maxSubMod = 65536 ∧ subnoMinMod = 65536 ∧ subnoMaxMod = 65536
+    ∧ subRangeRestartsWhenSingle = true ∧ walkExactLookup = true ∧ walkClampsToFirst = true
+    ∧ walkStopsAtSecondWrap = true := by decide
+
 /-! ## small helpers -/
 
 /-- `vbi_is_bcd` (32-bit unsigned arithmetic) -/
@@ -140,7 +149,7 @@ def State.unzombieNet (s : State) (nid : Nat) : State :=
 def State.netRemovePage (s : State) (nid pg : Nat) : State :=
   s.updNet nid fun n =>
     let ps := n.getStat pg
-    ({ n with nCached := n.nCached - 1 } : Net).setStat pg { ps with nSub := (ps.nSub + 255) % 256 }
+    ({ n with nCached := n.nCached - 1 } : Net).setStat pg { ps with nSub := (ps.nSub + 65535) % 65536 }
 
 def State.netAddPage (s : State) (nid pg subno : Nat) : State :=
   let s := s.unzombieNet nid
@@ -148,10 +157,10 @@ def State.netAddPage (s : State) (nid pg subno : Nat) : State :=
     let n : Net := { n with nCached := n.nCached + 1 }
     let n : Net := if n.nCached > n.maxCached then { n with maxCached := n.nCached } else n
     let ps := n.getStat pg
-    let ps : PStat := { ps with nSub := (ps.nSub + 1) % 256 }
+    let ps : PStat := { ps with nSub := (ps.nSub + 1) % 65536 }
     let ps : PStat := if ps.nSub > ps.maxSub then { ps with maxSub := ps.nSub } else ps
-    let ps : PStat := if ps.subMin = 0 ∨ subno < ps.subMin then { ps with subMin := subno % 65536 } else ps
-    let ps : PStat := if subno > ps.subMax then { ps with subMax := subno % 65536 } else ps
+    let ps : PStat := if ps.nSub = 1 ∨ subno < ps.subMin then { ps with subMin := subno % 65536 } else ps
+    let ps : PStat := if ps.nSub = 1 ∨ subno > ps.subMax then { ps with subMax := subno % 65536 } else ps
     n.setStat pg ps
 
 /-! ## delete_page, delete_all_pages, delete_surplus_pages -/
@@ -494,7 +503,10 @@ def walkSeek (n : Net) (dir : Int) : Nat → Nat → Int → Bool → Seek
   | fuel + 1, pgno, subno, wrapped =>
     let ps := n.getStat pgno
     if ps.nSub = 0 ∨ subno < ps.subMin ∨ subno > ps.subMax then
-      if dir < 0 then
+      -- still on a page number with cached subpages but before their range in walking direction
+      if ps.nSub ≠ 0 ∧ dir > 0 ∧ subno < ps.subMin then .at pgno ps.subMin wrapped
+      else if ps.nSub ≠ 0 ∧ dir < 0 ∧ subno > ps.subMax then .at pgno ps.subMax wrapped
+      else if dir < 0 then
         if pgno - 1 < 0x100 then
           if wrapped then .done else walkSeek n dir fuel 0x8FF (n.getStat 0x8FF).subMax true
         else walkSeek n dir fuel (pgno - 1) (n.getStat (pgno - 1)).subMax wrapped
@@ -510,6 +522,16 @@ structure Visit where
   tag : Nat
   wrapped : Bool
   deriving DecidableEq, Repr
+
+/-- `cp = page_by_pgno (ca, cn, pgno, subno, -1); if (NULL != cp) cp = cache_page_ref (cp);` -/
+def State.lookupExact (s : State) (nid pgno : Nat) (subno : Int) : State × Option Page :=
+  if subno < 0 then (s, none)   -- `(cp->subno & -1) == subno` never holds for a negative subno
+  else
+    match s.pageByPgno nid pgno subno.toNat 0xFFFFFFFF with
+    | (s, none) => (s, none)
+    | (s, some p) =>
+      let s := s.pageRef p.id
+      (s, s.findPage p.id)
 
 /-- `if (cp) { r = callback (cp, wrapped, user_data); cache_page_unref (cp); }` -/
 def walkVisit (s : State) (cp : Option Page) (wrapped : Bool) (vs : List Visit) : State × List Visit :=
@@ -533,7 +555,7 @@ def walkLoop (nid : Nat) (dir : Int) (stop : Nat) :
         | .fuel => (r.1, r.2, none)
         | .done => (r.1, r.2, some (-1))
         | .at pgno subno wrapped =>
-          let g := r.1.getPage nid pgno subno 0xFFFFFFFF
+          let g := r.1.lookupExact nid pgno subno
           walkLoop nid dir stop fuel g.1 g.2 pgno subno wrapped r.2
 
 def State.foreachPage (s : State) (nid pgno subno : Nat) (dir : Int) (stop fuel : Nat) :
